@@ -118,7 +118,7 @@ extern "C" int harness_main()
 	simulation s(cfg);
 	cfg.net.append(std::make_shared<queue>(s.get_io_context(), 0, duration(1000000), 0, "net"));
 #if MODE == 0
-	int const kind = vp_choose(8);   // 0 v5 ip ok, 1 v5 name ok, 2 v5 ip refused, 3 v5 name unresolvable, 4 v4 ok, 5 v4 refused, 6 v5 200-character name, 7 v5 ip ok with a reply much larger than a congestion window
+	int const kind = vp_choose(9);   // 8: v5 name ok with a five-digit port (39000); 0 v5 ip ok, 1 v5 name ok, 2 v5 ip refused, 3 v5 name unresolvable, 4 v4 ok, 5 v4 refused, 6 v5 200-character name, 7 v5 ip ok with a reply much larger than a congestion window
 	// (routes are fixed when a node is created, so the slow link has to exist before the client node does)
 	if (kind == 7) cfg.in[CA].append(std::make_shared<queue>(s.get_io_context(), 20000, duration(0), 0, "slow"));
 #endif
@@ -126,7 +126,12 @@ extern "C" int harness_main()
 	error_code ec;
 	target t; tcp::acceptor tacc(t_ios); tcp::socket tsock(t_ios);
 	t.acc = &tacc; t.sock = &tsock;
-	tacc.open(tcp::v4(), ec); tacc.bind(tcp::endpoint(TA, 9000), ec); tacc.listen(5, ec);
+	#if MODE == 0
+	int const tport = kind == 8 ? 39000 : 9000;
+#else
+	int const tport = 9000;
+#endif
+	tacc.open(tcp::v4(), ec); tacc.bind(tcp::endpoint(TA, (unsigned short)tport), ec); tacc.listen(5, ec);
 	tacc.async_accept(tsock, [&](error_code const& e) { if (e) return; ++t.accepted; tsock.non_blocking(true); target_read(t); });
 
 #if MODE == 0
@@ -143,8 +148,9 @@ extern "C" int harness_main()
 	else if (kind == 4) neg = v4_connect(TA.to_v4(), 9000);
 	else if (kind == 5) neg = v4_connect(TA.to_v4(), 9001);
 	else if (kind == 6) neg = v5_connect_name(long_name.c_str(), 9000);
+	else if (kind == 8) neg = v5_connect_name("target.test", 39000);
 	else neg = v5_connect_ip(TA.to_v4(), 9000);
-	bool const ok = kind == 0 || kind == 1 || kind == 4 || kind == 6 || kind == 7;
+	bool const ok = kind == 0 || kind == 1 || kind == 4 || kind == 6 || kind == 7 || kind == 8;
 	int const extra = kind == 7 ? 10000 : 0;
 	// a SOCKS client waits for each reply before it goes on: greeting (v5), request, then payload
 	client c; tcp::socket csock(cios); asio::high_resolution_timer ctimer(tios);
@@ -245,7 +251,7 @@ extern "C" int harness_main()
 	s.run();
 	vp_reach(1);
 	if (ok) vp_reach(2); else vp_reach(3);
-#else
+#elif MODE == 1
 #ifdef SMALL
 	int const version = 5;
 #else
@@ -339,6 +345,401 @@ extern "C" int harness_main()
 	s.run();
 	vp_reach(1);
 	if (b.eof) vp_reach(2);
+#elif MODE == 2
+	// ---- BIND: the client asks the proxy to listen on an endpoint; a peer on the target node connects to it;
+	// the proxy answers twice (bound endpoint, then the peer's endpoint) and relays both ways.
+	int const version = vp_choose(2) == 0 ? 5 : 4;
+	socks_server* proxy = new socks_server(pios, 1080, version);
+	bool const bind_any = vp_choose(2) == 1;            // bind to the proxy's address or to 0.0.0.0
+	int const bport = 6000;
+	int const leaver = vp_choose(3);                     // 0: nobody leaves; 1/2: a first client negotiates BIND for the same port and leaves (at once / 3 ms later) before any peer connects
+	bool const peer_hello = vp_choose(2) == 1;           // the peer speaks first (two bytes) as soon as it is connected
+	address_v4 const baddr = bind_any ? address_v4::any() : PA.to_v4();
+	std::string neg;
+	if (version == 5)
+	{
+		neg = std::string("\x05\x01\x00", 3) + std::string("\x05\x02\x00\x01", 4);
+		auto b = baddr.to_bytes(); neg.append(reinterpret_cast<char const*>(b.data()), 4);
+		neg.push_back(char(bport >> 8)); neg.push_back(char(bport & 0xff));
+	}
+	else
+	{
+		neg = std::string("\x04\x02", 2);
+		neg.push_back(char(bport >> 8)); neg.push_back(char(bport & 0xff));
+		auto b = baddr.to_bytes(); neg.append(reinterpret_cast<char const*>(b.data()), 4);
+		neg.push_back(0);
+	}
+	std::size_t const greet = version == 5 ? 3 : 0;
+	std::size_t const rlen = version == 5 ? 10 : 8;      // length of one reply
+	std::size_t const pre = version == 5 ? 2 : 0;        // method selection
+	unsigned char payload[4], hello[2];
+	for (int i = 0; i < 4; ++i) payload[i] = vp_sym_byte();
+	for (int i = 0; i < 2; ++i) hello[i] = vp_sym_byte();
+
+	// the first client (optional): negotiates, gets the first reply, leaves
+	client a; tcp::socket asock(cios); asio::high_resolution_timer atimer(tios), aleave(tios);
+	a.sock = &asock; a.timer = &atimer;
+	int a_phase = 0; bool a_left = false;
+	std::function<void()> start_main;
+	std::function<void()> a_rd = [&]()
+	{
+		asock.async_read_some(asio::buffer(a.buf, 256), [&](error_code const& e, std::size_t n)
+		{
+			if (e) { a.eof = true; return; }
+			a.in.append(a.buf, n);
+			if (a_phase == 0 && version == 5 && a.in.size() >= 2)
+			{
+				a_phase = 1;
+				a.out = neg.substr(greet); a.sent = 0; a.piece = 0; a.cuts.clear(); a.gaps.assign(1, 0);
+				write_next(a);
+			}
+			if (a.in.size() >= pre + rlen && !a_left)
+			{
+				a_left = true;
+				if (leaver == 1) { error_code e2; asock.close(e2); start_main(); return; }
+				aleave.expires_after(duration(3000000));
+				aleave.async_wait([&](error_code const&) { error_code e2; asock.close(e2); start_main(); });
+			}
+			a_rd();
+		});
+	};
+
+	// the main client
+	client c; tcp::socket csock(cios); asio::high_resolution_timer ctimer(tios), ptimer(tios);
+	c.sock = &csock; c.timer = &ctimer;
+	tcp::socket psock(t_ios); target peer; peer.acc = nullptr; peer.sock = &psock;
+	int peer_connected = -1; tcp::endpoint peer_local;
+	int phase = 0;
+	std::function<void()> advance = [&]()
+	{
+		if (phase == 0 && version == 5 && c.in.size() >= 2)
+		{
+			phase = 1;
+			c.out = neg.substr(greet); c.sent = 0; c.piece = 0; c.cuts.clear(); c.gaps.assign(1, 0);
+			int const cut = vp_choose(2);
+			if (cut == 1) { c.cuts.push_back(4); c.gaps.push_back(vp_choose(2) == 0 ? 0 : 5000000); }
+			write_next(c);
+		}
+		if (phase <= 1 && (version == 4 || phase == 1) && c.in.size() >= pre + rlen)
+		{
+			// first reply is in: the proxy listens now; the peer dials in (at once or 4 ms later)
+			phase = 2;
+			if ((unsigned char)c.in[pre + 1] != (version == 5 ? 0 : 90)) return;
+			long const wait = vp_choose(2) == 0 ? 0 : 4000000;
+			auto dial = [&]()
+			{
+				error_code e2;
+				psock.open(tcp::v4(), e2);
+				psock.async_connect(tcp::endpoint(PA, (unsigned short)bport), [&](error_code const& e)
+				{
+					peer_connected = ecv(e); if (e) return;
+					psock.non_blocking(true);
+					error_code e3; peer_local = psock.local_endpoint(e3);
+					if (peer_hello)
+					{
+						std::shared_ptr<std::string> h = std::make_shared<std::string>(reinterpret_cast<char const*>(hello), 2);
+						boost::asio::async_write(psock, asio::buffer(h->data(), 2), [&, h](error_code const&, std::size_t) { target_read(peer); });
+					}
+					else target_read(peer);
+				});
+			};
+			if (wait == 0) dial();
+			else { ptimer.expires_after(duration(wait)); ptimer.async_wait([dial](error_code const&) { dial(); }); }
+		}
+		if (phase == 2 && c.in.size() >= pre + 2 * rlen)
+		{
+			// second reply is in: exchange payload
+			phase = 3;
+			c.out.assign(reinterpret_cast<char const*>(payload), 4); c.sent = 0; c.piece = 0; c.cuts.clear(); c.gaps.assign(1, 0);
+			int const cut = vp_choose(3);
+			if (cut > 0) { c.cuts.push_back(cut); c.gaps.push_back(vp_choose(2) == 0 ? 0 : 5000000); }
+			write_next(c);
+		}
+	};
+	std::function<void()> rd = [&]()
+	{
+		csock.async_read_some(asio::buffer(c.buf, 256), [&](error_code const& e, std::size_t n)
+		{
+			if (e) { c.eof = true; return; }
+			c.in.append(c.buf, n);
+			advance();
+			rd();
+		});
+	};
+	start_main = [&]()
+	{
+		error_code e2;
+		csock.open(tcp::v4(), e2);
+		csock.async_connect(tcp::endpoint(PA, 1080), [&](error_code const& e)
+		{
+			c.connected = ecv(e); if (e) return;
+			csock.non_blocking(true);
+			rd();
+			c.out = version == 5 ? neg.substr(0, greet) : neg; c.gaps.assign(1, 0);
+			write_next(c);
+		});
+	};
+	if (leaver == 0) start_main();
+	else
+	{
+		asock.open(tcp::v4(), ec);
+		asock.async_connect(tcp::endpoint(PA, 1080), [&](error_code const& e)
+		{
+			a.connected = ecv(e); if (e) return;
+			asock.non_blocking(true);
+			a_rd();
+			a.out = version == 5 ? neg.substr(0, greet) : neg; a.gaps.assign(1, 0);
+			write_next(a);
+		});
+	}
+	s.run();
+	vp_log(1, long(c.in.size()), long(peer.in.size()), peer_connected);
+	if (leaver != 0)
+	{
+		// the first client was served too (its first reply reported success)
+		vp_assert(a.connected == 0, 40);
+		vp_assert(a.in.size() >= pre + rlen, 41);
+		if (a.in.size() >= pre + rlen) vp_assert((unsigned char)a.in[pre + 1] == (version == 5 ? 0 : 90), 42);
+	}
+	vp_assert(c.connected == 0, 43);
+	vp_assert(c.in.size() >= pre + 2 * rlen, 44);
+	if (c.in.size() >= pre + 2 * rlen)
+	{
+		unsigned char const* r = reinterpret_cast<unsigned char const*>(c.in.data());
+		auto const ab = baddr.to_bytes(); auto const pb = TA.to_v4().to_bytes(); auto const qb = PA.to_v4().to_bytes();
+		int const pp = peer_local.port();
+		if (version == 5)
+		{
+			vp_assert((r[0] == 5) & (r[1] == 0), 45);
+			unsigned char const* r1 = r + 2; unsigned char const* r2 = r + 12;
+			// first reply: success, the endpoint the proxy listens on
+			vp_assert((r1[0] == 5) & (r1[1] == 0) & (r1[2] == 0) & (r1[3] == 1), 46);
+			// (for a bind to 0.0.0.0 the reply may name 0.0.0.0 or the proxy's own address: the property does not say)
+			bool const a1 = (r1[4] == ab[0]) & (r1[5] == ab[1]) & (r1[6] == ab[2]) & (r1[7] == ab[3]);
+			bool const a2 = (r1[4] == qb[0]) & (r1[5] == qb[1]) & (r1[6] == qb[2]) & (r1[7] == qb[3]);
+			vp_assert((a1 | a2) & (r1[8] == (bport >> 8)) & (r1[9] == (bport & 0xff)), 47);
+			// second reply: success, the endpoint of the peer that connected
+			vp_assert((r2[0] == 5) & (r2[1] == 0) & (r2[2] == 0) & (r2[3] == 1), 48);
+			vp_assert((r2[4] == pb[0]) & (r2[5] == pb[1]) & (r2[6] == pb[2]) & (r2[7] == pb[3]) & (r2[8] == (pp >> 8)) & (r2[9] == (pp & 0xff)), 49);
+		}
+		else
+		{
+			unsigned char const* r1 = r; unsigned char const* r2 = r + 8;
+			vp_assert((r1[0] == 0) & (r1[1] == 90) & (r1[2] == (bport >> 8)) & (r1[3] == (bport & 0xff)), 46);
+			bool const a1 = (r1[4] == ab[0]) & (r1[5] == ab[1]) & (r1[6] == ab[2]) & (r1[7] == ab[3]);
+			bool const a2 = (r1[4] == qb[0]) & (r1[5] == qb[1]) & (r1[6] == qb[2]) & (r1[7] == qb[3]);
+			vp_assert(a1 | a2, 47);
+			vp_assert((r2[0] == 0) & (r2[1] == 90) & (r2[2] == (pp >> 8)) & (r2[3] == (pp & 0xff)), 48);
+			vp_assert((r2[4] == pb[0]) & (r2[5] == pb[1]) & (r2[6] == pb[2]) & (r2[7] == pb[3]), 49);
+		}
+		// relay, both ways, unchanged and in order
+		vp_assert(peer_connected == 0, 50);
+		vp_assert(peer.in.size() == 4, 51);
+		for (int i = 0; i < 4 && i < int(peer.in.size()); ++i) vp_assert((unsigned char)peer.in[std::size_t(i)] == payload[i], 52);
+		std::size_t const base = pre + 2 * rlen;
+		std::size_t const hl = peer_hello ? 2 : 0;
+		vp_assert(c.in.size() == base + hl + 4, 53);
+		for (std::size_t i = 0; i < hl && base + i < c.in.size(); ++i) vp_assert((unsigned char)c.in[base + i] == hello[i], 54);
+		for (std::size_t i = 0; i < 4 && base + hl + i < c.in.size(); ++i) vp_assert((unsigned char)c.in[base + hl + i] == (unsigned char)(payload[i] ^ 0x55), 55);
+		vp_assert(!c.eof, 56);
+	}
+	// command counters: BIND requests only
+	vp_assert((proxy->cmd_counts()[0] == 0) & (proxy->cmd_counts()[1] == (leaver != 0 ? 2 : 1)) & (proxy->cmd_counts()[2] == 0), 57);
+	csock.close(ec); psock.close(ec);
+	s.run();
+	proxy->stop();
+	tsock.close(ec); tacc.close(ec);
+	s.run();
+	delete proxy;
+	s.run();
+	vp_reach(1);
+	if (leaver != 0) vp_reach(2);
+	if (peer_hello) vp_reach(3);
+#elif MODE == 3
+	// ---- UDP ASSOCIATE (SOCKS5): datagrams from the client are forwarded to the target named in their header with
+	// the header stripped; replies come back wrapped in a header naming their source.
+	int const flags = vp_choose(2) == 0 ? 0 : int(udp_associate_respond_empty_hostname);
+	socks_server* proxy = new socks_server(pios, 1080, 5, std::uint32_t(flags));
+	bool const declared = vp_choose(2) == 0;             // the request names the client's UDP endpoint, or 0.0.0.0:0 (learned from the first datagram)
+	int const cport = 4000;
+	std::string neg = std::string("\x05\x01\x00", 3) + std::string("\x05\x03\x00\x01", 4);
+	{
+		auto b = (declared ? CA.to_v4() : address_v4::any()).to_bytes(); neg.append(reinterpret_cast<char const*>(b.data()), 4);
+		int const p = declared ? cport : 0;
+		neg.push_back(char(p >> 8)); neg.push_back(char(p & 0xff));
+	}
+	// the UDP target: answers every datagram with its bytes xor 0x55
+	struct dgram { std::string data; udp::endpoint from; };
+	static std::vector<dgram> t_got, c_got;
+	t_got.clear(); c_got.clear();
+	udp::socket tu(t_ios), cu(cios);
+	tu.open(udp::v4(), ec); tu.non_blocking(true); tu.bind(udp::endpoint(TA, 9100), ec);
+	cu.open(udp::v4(), ec); cu.non_blocking(true); cu.bind(udp::endpoint(CA, (unsigned short)cport), ec);
+	static char tubuf[64], cubuf[64]; udp::endpoint tfrom, cfrom;
+	std::function<void()> t_recv = [&]()
+	{
+		tu.async_receive_from(asio::buffer(tubuf, 64), tfrom, [&](error_code const& e, std::size_t n)
+		{
+			if (e) return;
+			dgram d; d.data.assign(tubuf, n); d.from = tfrom; t_got.push_back(d);
+			std::string out(tubuf, n); for (auto& ch : out) ch = char(ch ^ 0x55);
+			error_code e2; tu.send_to(asio::buffer(out.data(), out.size()), tfrom, 0, e2);
+			t_recv();
+		});
+	};
+	std::function<void()> c_recv = [&]()
+	{
+		cu.async_receive_from(asio::buffer(cubuf, 64), cfrom, [&](error_code const& e, std::size_t n)
+		{
+			if (e) return;
+			dgram d; d.data.assign(cubuf, n); d.from = cfrom; c_got.push_back(d);
+			c_recv();
+		});
+	};
+	t_recv(); c_recv();
+	// what the client will send once associated
+	bool const malformed_first = vp_choose(2) == 1;
+	int const ndg = 1 + vp_choose(2);
+	std::string dg[3]; std::string dg_payload[3]; bool dg_named[3];
+	int nsend = 0;
+	if (malformed_first)
+	{
+		// an arbitrary short or odd datagram (every byte symbolic): at worst it is ignored
+		int const lens[4] = {1, 4, 9, 12};
+		int const l = lens[vp_choose(4)];
+#ifdef SMALL
+		// quick tier: the bytes the parser branches on (reserved, fragment, address type, first address / length byte)
+		// and the payload are symbolic; the rest of the address and the port (which only select where the datagram
+		// is sent) come from a small alphabet
+		{
+			unsigned char const tails[2][5] = {{0, 0, 3, 9100 >> 8, 9100 & 0xff}, {'a', 'b', 'c', 0, 7}};
+			int const a = l > 5 ? vp_choose(2) : 0;
+			for (int i = 0; i < l; ++i) dg[nsend].push_back((i >= 5 && i < 10) ? char(tails[a][i - 5]) : char(vp_sym_byte()));
+		}
+#else
+		for (int i = 0; i < l; ++i) dg[nsend].push_back(char(vp_sym_byte()));
+#endif
+		dg_payload[nsend] = std::string(); dg_named[nsend] = false;
+		++nsend;
+	}
+	int const first_valid = nsend;
+	for (int k = 0; k < ndg; ++k)
+	{
+		bool const named = vp_choose(2) == 1;
+		std::string h("\x00\x00\x00", 3);
+		if (named) { h.push_back(3); h.push_back(char(11)); h += "target.test"; }
+		else { h.push_back(1); auto b = TA.to_v4().to_bytes(); h.append(reinterpret_cast<char const*>(b.data()), 4); }
+		h.push_back(char(9100 >> 8)); h.push_back(char(9100 & 0xff));
+		int const pl = 1 + vp_choose(2);
+		std::string pay; for (int i = 0; i < pl; ++i) pay.push_back(char(vp_sym_byte()));
+		dg[nsend] = h + pay; dg_payload[nsend] = pay; dg_named[nsend] = named;
+		++nsend;
+	}
+	client c; tcp::socket csock(cios); asio::high_resolution_timer ctimer(tios), dtimer(tios);
+	c.sock = &csock; c.timer = &ctimer;
+	int phase = 0; int relay_port = -1; int sent_dg = 0;
+	std::size_t const rlen = flags ? std::size_t(5 + 6 + 2) : std::size_t(10);
+	std::function<void()> send_next = [&]()
+	{
+		if (sent_dg >= nsend) return;
+		error_code e2;
+		cu.send_to(asio::buffer(dg[sent_dg].data(), dg[sent_dg].size()), udp::endpoint(PA, (unsigned short)relay_port), 0, e2);
+		++sent_dg;
+		dtimer.expires_after(duration(10000000));
+		dtimer.async_wait([&](error_code const&) { send_next(); });
+	};
+	std::function<void()> advance = [&]()
+	{
+		if (phase == 0 && c.in.size() >= 2)
+		{
+			phase = 1;
+			c.out = neg.substr(3); c.sent = 0; c.piece = 0; c.cuts.clear(); c.gaps.assign(1, 0);
+			write_next(c);
+		}
+		if (phase == 1 && c.in.size() >= 2 + rlen)
+		{
+			phase = 2;
+			unsigned char const* r = reinterpret_cast<unsigned char const*>(c.in.data()) + 2;
+			if (r[1] != 0) return;
+			relay_port = (int(r[rlen - 2]) << 8) | int(r[rlen - 1]);
+			send_next();
+		}
+	};
+	std::function<void()> rd = [&]()
+	{
+		csock.async_read_some(asio::buffer(c.buf, 256), [&](error_code const& e, std::size_t n)
+		{
+			if (e) { c.eof = true; return; }
+			c.in.append(c.buf, n);
+			advance();
+			rd();
+		});
+	};
+	csock.open(tcp::v4(), ec);
+	csock.async_connect(tcp::endpoint(PA, 1080), [&](error_code const& e)
+	{
+		c.connected = ecv(e); if (e) return;
+		csock.non_blocking(true);
+		rd();
+		c.out = neg.substr(0, 3); c.gaps.assign(1, 0);
+		write_next(c);
+	});
+	s.run();
+	vp_log(1, long(c.in.size()), long(t_got.size()), long(c_got.size()));
+	vp_assert(c.connected == 0, 60);
+	vp_assert(c.in.size() == 2 + rlen, 61);
+	if (c.in.size() == 2 + rlen)
+	{
+		unsigned char const* r = reinterpret_cast<unsigned char const*>(c.in.data()) + 2;
+		// success; the relay endpoint: first port of the proxy's range, as an address or (with the flag) a host name
+		vp_assert((r[0] == 5) & (r[1] == 0) & (r[2] == 0) & (r[3] == (flags ? 3 : 1)), 62);
+		vp_assert(relay_port == 2048, 63);
+		vp_assert(!c.eof, 64);
+		// the valid datagrams arrive at the target in order, header stripped, from the relay endpoint;
+		// (a malformed first datagram may or may not have produced something: only the tail is compared)
+		int const nv = nsend - first_valid;
+		vp_assert(int(t_got.size()) >= nv, 65);
+		vp_assert(int(c_got.size()) >= nv, 66);
+		if (!malformed_first) vp_assert((int(t_got.size()) == nv) & (int(c_got.size()) == nv), 67);
+		bool named_before = false;
+		for (int k = 0; k < nv && int(t_got.size()) >= nv && int(c_got.size()) >= nv; ++k)
+		{
+			dgram const& tg = t_got[t_got.size() - std::size_t(nv) + std::size_t(k)];
+			dgram const& cg = c_got[c_got.size() - std::size_t(nv) + std::size_t(k)];
+			std::string const& pay = dg_payload[first_valid + k];
+			vp_assert(tg.data.size() == pay.size(), 68);
+			for (std::size_t i = 0; i < pay.size() && i < tg.data.size(); ++i) vp_assert(tg.data[i] == pay[i], 69);
+			vp_assert((tg.from.address() == PA) & (tg.from.port() == 2048), 70);
+			// the reply: wrapped in a header naming its source (by the name the client used for that address, once
+			// it has used one; by address otherwise)
+			named_before = named_before || dg_named[first_valid + k];
+			std::string h("\x00\x00\x00", 3);
+			if (named_before) { h.push_back(3); h.push_back(char(11)); h += "target.test"; }
+			else { h.push_back(1); auto b = TA.to_v4().to_bytes(); h.append(reinterpret_cast<char const*>(b.data()), 4); }
+			h.push_back(char(9100 >> 8)); h.push_back(char(9100 & 0xff));
+			if (malformed_first) continue;    // (a malformed datagram that happened to name the target by name is not tracked)
+			vp_assert(cg.data.size() == h.size() + pay.size(), 71);
+			if (cg.data.size() == h.size() + pay.size())
+			{
+				for (std::size_t i = 0; i < h.size(); ++i) vp_assert(cg.data[i] == h[i], 72);
+				for (std::size_t i = 0; i < pay.size(); ++i) vp_assert((unsigned char)cg.data[h.size() + i] == (unsigned char)(pay[i] ^ 0x55), 73);
+			}
+			vp_assert((cg.from.address() == PA) & (cg.from.port() == 2048), 74);
+		}
+	}
+	vp_assert((proxy->cmd_counts()[0] == 0) & (proxy->cmd_counts()[1] == 0) & (proxy->cmd_counts()[2] == 1), 75);
+	csock.close(ec);
+	s.run();
+	cu.close(ec); tu.close(ec);
+	proxy->stop();
+	tsock.close(ec); tacc.close(ec);
+	s.run();
+	delete proxy;
+	s.run();
+	vp_reach(1);
+	if (malformed_first) vp_reach(2);
+	if (flags) vp_reach(3);
+
 #endif
 	return 0;
 }
